@@ -64,6 +64,7 @@ CL_D_ORDER = "census depends only on the isomorphism type (insertion order)"
 CL_D_LARGE = "hyperedges with more nodes than the order are ignored"
 
 STATED_CLASSES = {3: 6, 4: 171}
+_MODES = ["constructor, isolated nodes last", "add_edge one by one, isolated nodes first"]
 MAX_FAILS_PER_TASK = 4
 
 
@@ -291,11 +292,11 @@ class _Acc:
 
 
 def _fmt_counts(d):
-    return {repr(c): n for c, n in sorted(d.items())}
+    return {repr(c): n for c, n in sorted(d.items(), key=repr)}
 
 
 def _diff(exp, obs):
-    keys = sorted(set(exp) | set(obs))
+    keys = sorted(set(exp) | set(obs), key=repr)
     return ({repr(c): exp.get(c, 0) for c in keys if exp.get(c, 0) != obs.get(c, 0)},
             {repr(c): obs.get(c, 0) for c in keys if exp.get(c, 0) != obs.get(c, 0)})
 
@@ -349,8 +350,6 @@ def eval_u(t):
             return None, None
         r = _observe_u(h, order)
         acc.check(r[0] == "ok", F_U, CL_RAISE, inp, expected="a result", observed=r[2] if r[0] != "ok" else None,
-                  key=f"{F_U}:{CL_RAISE}:{r[1]}" if r[0] != "ok" else None, rp=None) if False else None
-        acc.check(r[0] == "ok", F_U, CL_RAISE, inp, expected="a result", observed=r[2] if r[0] != "ok" else None,
                   key=f"{F_U}:{CL_RAISE}:{r[1]}" if r[0] != "ok" else None, replay=rp)
         if r[0] != "ok":
             return None, None
@@ -387,18 +386,18 @@ def eval_u(t):
         e, o = _diff(_nz(base), _nz(cn))
         acc.check(_nz(cn) == _nz(base), F_U, CL_LABEL, inp, expected=e, observed=o, replay=rep(maps=[mp]))
 
-    for i, sh in enumerate(t.get("shuffles", [])):
+    for mode, sh in t.get("shuffles", []):
         es = [list(e) for e in sh]
-        inp = dict(base_in, inserted_as=es, insertion_mode=["constructor", "add_edge one by one, isolated nodes first"][i % 2])
+        inp = dict(base_in, inserted_as=es, insertion_mode=_MODES[mode])
         acc.case(dict(fn="compute_motifs", order=order, edges=es, isolated=isolated, weighted=weighted,
-                      variant=["insert", i % 2]), nontrivial)
+                      variant=["insert", mode]), nontrivial)
         try:
-            h = _build_u(es, isolated, weighted, i % 2)
+            h = _build_u(es, isolated, weighted, mode)
         except _BuildError:
             acc.count("skipped_build_raised")
             continue
         r = _observe_u(h, order)
-        rp = rep(shuffles=[None] * (i % 2) + [es])
+        rp = rep(shuffles=[[mode, es]])
         acc.check(r[0] == "ok", F_U, CL_RAISE, inp, expected="a result", observed=r[2] if r[0] != "ok" else None,
                   key=f"{F_U}:{CL_RAISE}:{r[1]}" if r[0] != "ok" else None, replay=rp)
         if r[0] != "ok":
@@ -495,13 +494,13 @@ def eval_d(t):
         acc.case(dict(fn="compute_directed_motifs", order=order, edges=es, isolated=iso, variant="relabel"), nontrivial)
         compare(run(es, iso, 0, inp, rep(maps=[mp]), True), CL_D_LABEL, inp, rep(maps=[mp]))
 
-    for i, sh in enumerate(t.get("shuffles", [])):
+    for mode, sh in t.get("shuffles", []):
         es = [[list(s), list(tg)] for s, tg in sh]
-        inp = dict(base_in, inserted_as=es, insertion_mode=["constructor", "add_edge one by one, isolated nodes first"][i % 2])
-        acc.case(dict(fn="compute_directed_motifs", order=order, edges=es, isolated=isolated, variant=["insert", i % 2]),
+        inp = dict(base_in, inserted_as=es, insertion_mode=_MODES[mode])
+        acc.case(dict(fn="compute_directed_motifs", order=order, edges=es, isolated=isolated, variant=["insert", mode]),
                  nontrivial)
-        rp = rep(shuffles=[None] * (i % 2) + [es])
-        compare(run(es, isolated, i % 2, inp, rp, False), CL_D_ORDER, inp, rp)
+        rp = rep(shuffles=[[mode, es]])
+        compare(run(es, isolated, mode, inp, rp, False), CL_D_ORDER, inp, rp)
 
     for ex in t.get("extras", []):
         ex = [[list(s), list(tg)] for s, tg in ex]
@@ -540,24 +539,24 @@ def _maps_for(rng, nodes, n_random):
 
 def _shuffles_u(rng, edges, count):
     out = []
-    for _ in range(count):
+    for i in range(count):
         es = [list(e) for e in edges]
         rng.shuffle(es)
         for e in es:
             rng.shuffle(e)
-        out.append(es)
+        out.append([i % 2, es])
     return out
 
 
 def _shuffles_d(rng, edges, count):
     out = []
-    for _ in range(count):
+    for i in range(count):
         es = [[list(s), list(t)] for s, t in edges]
         rng.shuffle(es)
         for e in es:
             rng.shuffle(e[0])
             rng.shuffle(e[1])
-        out.append(es)
+        out.append([i % 2, es])
     return out
 
 
@@ -794,14 +793,12 @@ def _plan(ctx):
         light.append(dict(kind="xu", order=3, n=4, possible=p4, subsets=ch, seed=seed, all_maps=True,
                           n_shuffles=2 if q else 10, singletons=[[]]))
     if q:
-        for ch in _chunks(list(enumerate(idx_all)), 128):
-            by = {}
-            for m, idx in ch:
-                s = 1 + m % 15
-                by.setdefault(s, []).append(idx)
-            for s, subs in sorted(by.items()):
-                light.append(dict(kind="xu", order=3, n=4, possible=p4, subsets=subs, seed=seed, all_maps=False,
-                                  n_shuffles=0, singletons=[[v for v in range(4) if s >> v & 1]]))
+        by = {}
+        for m, idx in enumerate(idx_all):
+            by.setdefault(1 + m % 15, []).append(idx)
+        for sng, subs in sorted(by.items()):
+            light.append(dict(kind="xu", order=3, n=4, possible=p4, subsets=subs, seed=seed, all_maps=False,
+                              n_shuffles=0, singletons=[[v for v in range(4) if sng >> v & 1]]))
     else:
         allsing = [[v for v in range(4) if s >> v & 1] for s in range(1, 16)]
         for ch in _chunks(idx_all, 64):
@@ -906,11 +903,6 @@ def replay(data):
     common.use_repo()
     _classes(3), _classes(4)
     t = dict(data)
-    # json turned [None, edges] placeholders for the insertion mode back into lists with null: rebuild
-    if t.get("shuffles"):
-        sh = t["shuffles"]
-        mode = len(sh) - 1
-        t["shuffles"] = [sh[-1]] * (mode + 1)  # index parity selects the insertion mode; duplicates are harmless
     res = eval_u(t) if t.get("kind") == "u" else eval_d(t)
     if res["fails"]:
         f = res["fails"][0]
